@@ -67,7 +67,23 @@ def judge(case, g, text, obs, seed):
         return mism, None
     if RA.has_tag(tm, {"sn"}):
         # nested snapshot() calls are call sites of their own (their arguments change through their own site):
-        # for these hostile programs only completion (C18) and validity (C03) are judged
+        # for these hostile programs completion (C18) and validity (C03) are judged - and C10: a nested call is
+        # never edited through its parent: every nested call that the model keeps (its current value is matched
+        # by the alignment, or its element is replaced one by one) is still there
+        def nsn(t):
+            if isinstance(t, dict):
+                return (1 if t.get("t") == "sn" else 0) + sum(nsn(x) for x in t.values())
+            if isinstance(t, list):
+                return sum(nsn(x) for x in t)
+            return 0
+        if len(args) >= 1 and args[0][3] is not None:
+            try:
+                nt, _ = RA.alpha(args[0][3], g)
+                if not RA.has_tag(nt, {"alien"}) and nsn(nt) < nsn(case["exp_term"]):
+                    mm("nested-edited-through-parent", ["C10"], {"kept_by_model": nsn(case["exp_term"]), "found": nsn(nt),
+                                                                 "new": args[0][2]})
+            except Exception:  # noqa
+                pass
         return mism, None
     if len(args) != 1 or args[0][3] is None:
         mm("sites-lost", ["C03"], {"got": len(args)})
@@ -349,6 +365,120 @@ def _worker_orders(args):
                 mism, info, text, new_text = replay_orders(case, seed)
             out.append({"id": case["id"], "mism": mism, "info": info, "text": text if mism else None,
                         "new": new_text if mism else None})
+        except Exception:  # noqa
+            import traceback
+            out.append({"id": case["id"], "error": traceback.format_exc()[-2000:]})
+    return out
+
+
+def replay_nested(case, seed):
+    """C02 for nested snapshot() calls (each one is a call site of its own): one run with create and fix approved,
+    a later empty snapshot in the same test; unless the end of the session fails (C18's business, known finding
+    F5c) the rewritten module must pass when it is run with inline-snapshot disabled"""
+    from . import inline_driver
+    rng = random.Random("%s|%s|nested" % (case["id"], seed))
+    g = RA.Gamma(rng, case["tm"], case["v"])
+    text = RA.render(case["tm"], case["v"], g, extra_tests="    with _r.at(1, 2):\n        assert 'tail' == snapshot()\n")
+    flags = ["create", "fix"]
+    obs = inline_driver.run_session({"test_case.py": text}, flags)
+    mism = []
+    if obs.get("finish_error") or obs.get("import_error"):
+        mism.append({"clause": "finish", "props": ["C18"], "run": case["id"], "A": flags,
+                     "detail": (obs.get("finish_error") or obs.get("import_error"))[:2]})
+        return mism, {"atoms": g.atoms}, text, None
+    new = obs["files"]["test_case.py"]
+    if RA.has_tag(case["tm"], {"is", "fs", "sl"}):
+        return mism, {"atoms": g.atoms}, text, new         # a user-controlled part may disagree: never repaired
+    try:
+        ok = _passes_disabled(new)
+        why = None
+    except SyntaxError as e:
+        mism.append({"clause": "syntax", "props": ["C03", "C18"], "run": case["id"], "A": flags, "detail": str(e)})
+        return mism, {"atoms": g.atoms}, text, new
+    except Exception as e:  # noqa
+        ok, why = False, "%s: %s" % (type(e).__name__, str(e)[:200])
+    if not ok:
+        mism.append({"clause": "disabled-run", "props": ["C02"], "run": case["id"], "A": flags,
+                     "detail": {"passes": False, "expected": True, "why": why, "answers": obs.get("log")}})
+    return mism, {"atoms": g.atoms, "multiline": g.multiline}, text, new
+
+
+def _worker_nested(args):
+    cases, seed = args[0], args[1]
+    import contextlib
+    import io
+    out = []
+    for case in cases:
+        try:
+            with contextlib.redirect_stderr(io.StringIO()):
+                mism, info, text, new_text = replay_nested(case, seed)
+            out.append({"id": case["id"], "mism": mism, "info": info, "text": text if mism else None,
+                        "new": new_text if mism else None})
+        except Exception:  # noqa
+            import traceback
+            out.append({"id": case["id"], "error": traceback.format_exc()[-2000:]})
+    return out
+
+
+def replay_other_ops(case, seed):
+    """C10 beyond `==`: the same term is only evaluated (never compared), or used as an `in` snapshot; with update
+    (and trim / fix) approved the parts the user controls keep their source text and no value changes through update"""
+    from . import inline_driver
+    mism = []
+    tm, v = case["tm"], case["v"]
+    variants = [("never-compared", ["update"])]
+    if tm["t"] == "lt" and v["t"] == "l" and v["e"]:
+        variants += [("in", ["update"]), ("in", ["fix", "update"])]
+    info, text = {}, None
+    for name, flags in variants:
+        rng = random.Random("%s|%s|%s" % (case["id"], seed, name))
+        g = RA.Gamma(rng, tm, v)
+        base = RA.render(tm, v, g)
+        head, body = base.split("def test_a():\n", 1)
+        term_text = body.split("== snapshot(", 1)[1].rsplit(")\n", 1)[0]
+        if name == "never-compared":
+            text = head + "def test_a():\n    with _r.at(1, 1):\n        s = snapshot(%s)\n" % term_text
+        else:
+            vals = ", ".join(g.value(x) for x in v["e"])
+            text = head + "def test_a():\n    with _r.at(1, 1):\n        for _x in [%s]:\n            assert _x in snapshot(%s)\n" % (vals, term_text)
+        obs = inline_driver.run_session({"test_case.py": text}, flags)
+        info = {"atoms": g.atoms, "variant": name, "flags": flags}
+        if obs.get("finish_error") or obs.get("import_error"):
+            mism.append({"clause": "finish", "props": ["C18"], "run": case["id"], "A": flags, "variant": name,
+                         "detail": (obs.get("finish_error") or obs.get("import_error"))[:2]})
+            continue
+        new = obs["files"]["test_case.py"]
+        try:
+            args = inline_driver.snapshot_args(new)
+            orig = inline_driver.snapshot_args(text)
+            nt, new_ids = RA.alpha(args[0][3], g)
+            ot, old_ids = RA.alpha(orig[0][3], g)
+        except Exception as e:  # noqa
+            mism.append({"clause": "syntax", "props": ["C03"], "run": case["id"], "A": flags, "variant": name, "detail": repr(e)[:200]})
+            continue
+        ou, nu = user_ids(g.ids, old_ids), user_ids(g.ids, new_ids)
+        lost = [i for i in ou if i not in nu]
+        altered = [i for i in nu if i in old_ids and old_ids[i] != new_ids[i]]
+        # an `in` snapshot may lose an element as a whole (trim / not approved here) - never with update alone
+        if altered or (lost and "fix" not in flags):
+            mism.append({"clause": "user-part-altered" if altered else "user-part-lost", "props": ["C10"], "run": case["id"], "A": flags,
+                         "variant": name, "detail": {"old": ou, "new": nu, "text": [g.ids[i][1] for i in (altered or lost)], "written": args[0][2]}})
+        if flags == ["update"] and not RA.has_tag(nt, {"alien"}) and not RA.veq(RA.ev(nt), RA.ev(ot)):
+            mism.append({"clause": "value-changed-without-fix", "props": ["C05"], "run": case["id"], "A": flags, "variant": name,
+                         "detail": {"written": args[0][2]}})
+    return mism, info, text, None
+
+
+def _worker_other_ops(args):
+    cases, seed = args[0], args[1]
+    import contextlib
+    import io
+    out = []
+    for case in cases:
+        try:
+            with contextlib.redirect_stderr(io.StringIO()):
+                mism, info, text, new_text = replay_other_ops(case, seed)
+            out.append({"id": case["id"], "mism": mism, "info": info, "text": text if mism else None, "new": None})
         except Exception:  # noqa
             import traceback
             out.append({"id": case["id"], "error": traceback.format_exc()[-2000:]})
